@@ -264,6 +264,11 @@ id : 7 , name : "HLL" , min_pre_longs : 1 , max_pre_longs : 1 , }
 }
 
 fn encode_mode_byte ( cur_mode : u8 , tgt_type : u8 ) -> ( r : u8 ) ensures r == ( cur_mode & 0x3 ) | ( ( tgt_type & 0x3 ) << 2 ) {
+proof {
+let a = cur_mode ;
+let b = tgt_type ;
+assert ( a & 0x3 == a % 4 && b & 0x3 == b % 4 && ( b & 0x3 ) << 2 == ( b % 4 ) * 4 && ( b % 4 ) * 4 <= 12 && ( a & 0x3 ) | ( ( b & 0x3 ) << 2 ) == ( ( b & 0x3 ) << 2 ) | ( a & 0x3 ) ) by ( bit_vector ) ;
+}
 ( cur_mode & 0x3 ) | ( ( tgt_type & 0x3 ) << 2 ) }
 
 
